@@ -214,7 +214,13 @@ pub fn query_set<P: TP>(uni: &[Raw], model: &[&Model], full: bool, salt: u64) ->
     } else {
         let mut base: BTreeSet<Key> = uni.iter().map(|r| r.key()).collect();
         for m in model {
-            base.extend(m.m.keys().copied());
+            if m.m.len() <= 96 {
+                base.extend(m.m.keys().copied());
+            } else {
+                // large models: a salt-dependent sample of ~96 stored keys
+                let stride = m.m.len() / 96 + 1;
+                base.extend(m.m.keys().copied().skip((salt as usize) % stride).step_by(stride));
+            }
         }
         keys.insert(Key::ROOT);
         for k in base {
